@@ -188,6 +188,14 @@ func ruleLinearParamsExact(p *Prog, l *Ledger, tier string) {
 	if fn == nil {
 		return
 	}
+	// tainted parameters: the four reference times of fn, and the parameters of library helpers that receive
+	// something computed from them
+	taint := map[*ssa.Parameter]bool{}
+	for _, par := range fn.Params {
+		if isDurationT(par.Type()) {
+			taint[par] = true
+		}
+	}
 	var fromParam func(v ssa.Value, seen map[ssa.Value]bool) bool
 	fromParam = func(v ssa.Value, seen map[ssa.Value]bool) bool {
 		if v == nil || seen[v] {
@@ -196,54 +204,99 @@ func ruleLinearParamsExact(p *Prog, l *Ledger, tier string) {
 		seen[v] = true
 		switch x := v.(type) {
 		case *ssa.Parameter:
-			return isDurationT(x.Type())
+			return taint[x]
 		case *ssa.Convert:
 			return fromParam(x.X, seen)
 		case *ssa.ChangeType:
 			return fromParam(x.X, seen)
 		case *ssa.BinOp:
 			return fromParam(x.X, seen) || fromParam(x.Y, seen)
+		case *ssa.UnOp:
+			if x.Op == token.SUB {
+				return fromParam(x.X, seen)
+			}
 		case *ssa.Phi:
 			for _, e := range x.Edges {
 				if fromParam(e, seen) {
 					return true
 				}
 			}
+		case *ssa.Extract:
+			return fromParam(x.Tuple, seen)
+		case *ssa.Call:
+			// the result of a library helper fed with a reference time
+			if sc := x.Call.StaticCallee(); sc != nil && fnPkg(sc) == p.LibSSA {
+				for _, a := range x.Call.Args {
+					if fromParam(a, seen) {
+						return true
+					}
+				}
+			}
 		}
 		return false
 	}
-	nParams := 0
-	for _, par := range fn.Params {
-		if isDurationT(par.Type()) {
-			nParams++
-		}
-	}
+	nParams := len(taint)
 	if nParams < 4 {
 		l.Undecide(rule, name, rule+"|params", p.Pos(fn.Pos()), fmt.Sprintf("%s has %d time.Duration parameters, four expected: the reference times cannot be followed", name, nParams))
 		return
 	}
-	bad := 0
-	for _, b := range fn.Blocks {
-		for _, ins := range b.Instrs {
-			switch x := ins.(type) {
-			case *ssa.Call:
-				switch cn := calleeName(&x.Call); cn {
-				case "(time.Duration).Milliseconds", "(time.Duration).Microseconds", "(time.Duration).Truncate", "(time.Duration).Round":
-					if len(x.Call.Args) > 0 && fromParam(x.Call.Args[0], map[ssa.Value]bool{}) {
-						bad++
-						l.Fail(rule, name, l.Key(rule, name, cn, descOf(x.Call.Args[0])), p.Pos(x.Pos()), fmt.Sprintf("%s takes %s of a reference time: the part of it below that unit is dropped before the slope and the intercept are computed, and every corrected time is off by as much (times the slope)", name, cn))
+	// propagate into helpers (a few levels)
+	scope := []*ssa.Function{fn}
+	inScope := map[*ssa.Function]bool{fn: true}
+	for round := 0; round < 4; round++ {
+		grew := false
+		for _, f := range scope {
+			for _, b := range f.Blocks {
+				for _, ins := range b.Instrs {
+					ci, ok := ins.(ssa.CallInstruction)
+					if !ok {
+						continue
+					}
+					sc := ci.Common().StaticCallee()
+					if sc == nil || fnPkg(sc) != p.LibSSA || len(sc.Blocks) == 0 {
+						continue
+					}
+					for k, a := range ci.Common().Args {
+						if k < len(sc.Params) && !taint[sc.Params[k]] && fromParam(a, map[ssa.Value]bool{}) {
+							taint[sc.Params[k]] = true
+							grew = true
+							if !inScope[sc] {
+								inScope[sc] = true
+								scope = append(scope, sc)
+							}
+						}
 					}
 				}
-			case *ssa.BinOp:
-				if (x.Op == token.QUO || x.Op == token.REM) && isIntegerT(x.Type()) && fromParam(x.X, map[ssa.Value]bool{}) {
-					bad++
-					l.Fail(rule, name, l.Key(rule, name, "intdiv", descOf(x.X)), p.Pos(x.Pos()), fmt.Sprintf("%s divides a reference time as an integer: the remainder is dropped before the slope and the intercept are computed", name))
+			}
+		}
+		if !grew {
+			break
+		}
+	}
+	bad := 0
+	for _, f := range scope {
+		for _, b := range f.Blocks {
+			for _, ins := range b.Instrs {
+				switch x := ins.(type) {
+				case *ssa.Call:
+					switch cn := calleeName(&x.Call); cn {
+					case "(time.Duration).Milliseconds", "(time.Duration).Microseconds", "(time.Duration).Truncate", "(time.Duration).Round":
+						if len(x.Call.Args) > 0 && fromParam(x.Call.Args[0], map[ssa.Value]bool{}) {
+							bad++
+							l.Fail(rule, name, l.Key(rule, FnName(f), cn, descOf(x.Call.Args[0])), p.Pos(x.Pos()), fmt.Sprintf("%s takes %s of a reference time: the part of it below that unit is dropped before the slope and the intercept are computed, and every corrected time is off by as much (times the slope)", FnName(f), cn))
+						}
+					}
+				case *ssa.BinOp:
+					if (x.Op == token.QUO || x.Op == token.REM) && isIntegerT(x.Type()) && fromParam(x.X, map[ssa.Value]bool{}) {
+						bad++
+						l.Fail(rule, name, l.Key(rule, FnName(f), "intdiv", descOf(x.X)), p.Pos(x.Pos()), fmt.Sprintf("%s divides something computed from a reference time of %s as an integer: the remainder is dropped (or the operands are about to be multiplied as integers, with no room for the product) before the slope and the intercept are applied", FnName(f), name))
+					}
 				}
 			}
 		}
 	}
 	if bad == 0 {
-		l.Prove(rule, name, rule, p.Pos(fn.Pos()), "the four reference times reach the slope and the intercept through subtraction and conversion to float only")
+		l.Prove(rule, name, rule, p.Pos(fn.Pos()), fmt.Sprintf("the four reference times reach the slope and the intercept through subtraction and conversion to float only (%d function(s) followed)", len(scope)))
 	}
 }
 
